@@ -211,8 +211,25 @@ def doBlock (s : St) (rest : List String) : St × String :=
     let listedFinal := (getTimeoutList l2 h).any fun id => match id with
       | .single t => (match l2.getS (.txRec t) with | some (.trec r) => r.status.isFinal | _ => false)
       | .global _ => false
+    -- the other hypotheses of the C04 block theorems, evaluated on the model's own state: is the bookkeeping of this block
+    -- abandoned (`abort`, hypothesis of C04_block_finalising_unlists)?  and does `OpenInv` hold of every open one-to-one record
+    -- of a local pair at the end of this block (on the lists of heights still to come the id occurs at most once, and only on the
+    -- list of the deadline its record names)?
+    let acts := (((txs.filterMap id).map (·.1)).zip a.rcpts).map (fun p => timeoutAct s.cfg a.led h p.1 p.2)
+    let aborted := acts.contains .abort
+    let openInv := n'.led.store.all fun kv => match kv with
+      | (.txRec t, .trec r) =>
+        if r.status.isFinal || t.frm.bxh != t.to.bxh then true else
+        n'.led.store.all fun kv2 => match kv2 with
+          | (.timeout d, .tlist lst) =>
+            if d ≤ h then true else
+            let c := lst.count (some (TId.single t))
+            decide (c ≤ 1) && (c == 0 || d == r.height)
+          | _ => true
+      | _ => true
     ({ s with node := n', hist := s.hist ++ [(n'.height, n')], minJ := if n'.height > 10 then max s.minJ (n'.height - 10) else s.minJ },
       showBlock out outside ++ " ##m listedfinal=" ++ (if listedFinal then "1" else "0") ++
+        " abort=" ++ (if aborted then "1" else "0") ++ " openinv=" ++ (if openInv then "1" else "0") ++
         -- the hypothesis of the router theorems (`C02_router_hands_each_pier_its_delivery_set` …): one entry per chain
         " keyedmulti=" ++ (if decide ((out.multiCounter.map (·.1)).Nodup) then "1" else "0"))
   else (s, "bad-op unparsed")
